@@ -33,6 +33,12 @@ func init() {
 		for round := 0; round < rounds; round++ {
 			for _, mode := range []string{"test", "plain", "cached"} {
 				G := 2 + rng.Intn(5)
+				per := per
+				if round == 0 {
+					// one long history per mode: several thousand values on one timer (a bounded or recycled buffer of
+					// kept values loses the oldest ones only beyond a few thousand)
+					G, per = 4+rng.Intn(3), 4000
+				}
 				var root tally.Scope
 				var ts tally.TestScope
 				plain := &recReporter{}
